@@ -1803,8 +1803,10 @@ def check_C19(ctx):
     runs, steps = tiered(ctx, 8, 30), tiered(ctx, 200, 300)
     notes = {}
     for direction, extra in (("current-writes-3.0.0-reads", ["--reader", "3"]), ("3.0.0-writes-current-reads", ["--writer", "3"])):
-        for profile in ("crash", "crashsp") + (("crashcompact",) if direction.startswith("current") else ()):
-            st = run_crash(ctx, runs if profile == "crash" else max(2, runs // 2), steps, profile=profile, tag=f"{direction}-{profile}", extra=extra)
+        # (crashspburst: the savepoint counter passes 256 while persistent savepoints exist - system-table keys of more than one byte)
+        for profile in ("crash", "crashsp", "crashspburst") + (("crashcompact",) if direction.startswith("current") else ()):
+            nruns = runs if profile == "crash" else 2 if profile == "crashspburst" else max(2, runs // 2)
+            st = run_crash(ctx, nruns, steps if profile != "crashspburst" else 60, profile=profile, tag=f"{direction}-{profile}", extra=extra)
             notes[f"{direction}/{profile}"] = {k: st.get(k) for k in ("runs", "images", "crash_points", "distinct_probes", "images_the_writer_cannot_open")}
     ctx.notes["cross_release"] = notes
     ctx.assumptions += ["redb 3.0.0 is the crate of that version in the local cargo registry, linked into the harness next to the current code; both see "
